@@ -337,6 +337,66 @@ func KnownNil(facts []Fact, v ssa.Value) bool {
 			return true
 		}
 	}
+	return nilBySiblingResult(facts, v)
+}
+
+// nilBySiblingResult: v is result k of a call to a repo function, the path knows the value of a boolean sibling
+// result j of the same call, and every return of the callee that hands back that boolean value hands back a nil
+// result k (`flushed, err := f()`: when the callee answers flushed == false it never has an error to report).
+func nilBySiblingResult(facts []Fact, v ssa.Value) bool {
+	ev, ok := v.(*ssa.Extract)
+	if !ok {
+		return false
+	}
+	call, ok := ev.Tuple.(*ssa.Call)
+	if !ok {
+		return false
+	}
+	callee := StaticCallee(call)
+	if callee == nil || callee.Blocks == nil || Current == nil || !Current.InRepo(callee) {
+		return false
+	}
+	for _, f := range facts {
+		sib, ok := f.Cond.(*ssa.Extract)
+		neg := false
+		if !ok {
+			if u, isNot := f.Cond.(*ssa.UnOp); isNot && u.Op == token.NOT {
+				sib, ok = u.X.(*ssa.Extract)
+				neg = true
+			}
+		}
+		if !ok || sib.Tuple != ev.Tuple || sib.Index == ev.Index {
+			continue
+		}
+		want := f.Val != neg
+		all, some := true, false
+		for _, b := range callee.Blocks {
+			ret, isRet := b.Instrs[len(b.Instrs)-1].(*ssa.Return)
+			if !isRet || b == callee.Recover || sib.Index >= len(ret.Results) || ev.Index >= len(ret.Results) {
+				continue
+			}
+			for _, rp := range ReturnPaths(callee, sib.Index) {
+				if rp.Ret != ret {
+					continue
+				}
+				bv, isK := ConstBool(rp.Val)
+				if !isK {
+					all = false // the boolean is computed: no summary
+					continue
+				}
+				if bv != want {
+					continue
+				}
+				some = true
+				if !IsNilConst(RetOperand(ret, ev.Index)) {
+					all = false
+				}
+			}
+		}
+		if some && all {
+			return true
+		}
+	}
 	return false
 }
 
